@@ -505,6 +505,13 @@ func (x *c03) dischargeSlice(f *ssa.Function, v *ssa.Slice) (string, string) {
 			}
 			return "G7: header scratch — every buffer in the reader pool is created with len = MessageBufferLength and re-pooled only with that capacity (assumption recorded: MessageBufferLength ≥ HeaderLength)", ""
 		}
+		// Gparam: the sliced value is a parameter of a function only called inside the library, and every
+		// call site passes a slice whose length is guarded there
+		if pp, ok := v.X.(*ssa.Parameter); ok {
+			if why := x.paramLenAtCallers(f, pp, need, 0); why != "" {
+				return why, ""
+			}
+		}
 		return "", fmt.Sprintf("constant slice bounds [%d:%d] without a dominating length guard on the sliced value", lo, hi)
 	}
 	// G2: x[:h] under len(x) >= h, h non-negative
@@ -610,6 +617,10 @@ func (x *c03) dischargeSlice(f *ssa.Function, v *ssa.Slice) (string, string) {
 			if good {
 				return "Gwrite: b[sent:] with sent the sum of the counts returned by Write(b[sent:]) (0 ≤ count ≤ len(b)−sent by the io.Writer contract)", ""
 			}
+		}
+		// Gsym: inside the AVP decoder, the window arithmetic over the wire Length decides it
+		if why := x.symbolicSlice(f, v); why != "" {
+			return why, ""
 		}
 		return "", "b[n:] without a dominating n < len(b) guard"
 	}
@@ -1816,4 +1827,98 @@ func (x *c03) gbuf(v *ssa.Slice) string {
 		return "Gbuf: buf.Bytes()[0:l] of a buffer obtained from " + g.Name() + "(l), which returns a buffer of at least l (or MessageBufferLength ≥ l) bytes"
 	}
 	return ""
+}
+
+// paramLenAtCallers: parameter p of the unexported library function f has len ≥ need at every call site
+// (guard at the call site on the argument, or the argument is the caller's own parameter with the same property).
+func (x *c03) paramLenAtCallers(f *ssa.Function, p *ssa.Parameter, need int64, depth int) string {
+	if depth > 2 || f.Object() == nil || f.Object().Exported() {
+		return ""
+	}
+	idx := paramIndex(f, p)
+	n := 0
+	desc := ""
+	for _, g := range x.c.P.ModuleFuncs() {
+		for _, ci := range flow.CallInstrs(g) {
+			if flow.StaticCallee(ci) != f {
+				continue
+			}
+			n++
+			if idx >= len(ci.Common().Args) {
+				return ""
+			}
+			arg := ci.Common().Args[idx]
+			if why := lenGuardGE(ci, arg, func(k ssa.Value) bool { kk, ok := flow.ConstInt(k); return ok && kk >= need }); why != "" {
+				desc = why + " in " + g.Name()
+				continue
+			}
+			if ap, ok := arg.(*ssa.Parameter); ok {
+				if why := x.paramLenAtCallers(g, ap, need, depth+1); why != "" {
+					desc = why
+					continue
+				}
+			}
+			return ""
+		}
+		// a function value taken of f (method value, closure) could be called from anywhere
+		bad := false
+		flow.Instrs(g, func(in ssa.Instruction) {
+			if mc, ok := in.(*ssa.MakeClosure); ok && flow.Unwrap(mc.Fn.(*ssa.Function)) == f {
+				bad = true
+			}
+		})
+		if bad {
+			return ""
+		}
+	}
+	if n == 0 {
+		return ""
+	}
+	return fmt.Sprintf("Gparam: every one of the %d call sites passes a slice of at least %d bytes (guard %s)", n, need, desc)
+}
+
+// symbolicSlice: v = x[low:] inside the AVP decoder (or a helper of it). With x a window [lo, hi) of the decoder's
+// input and low an affine, possibly V-dependent value, the slice is in bounds when low ≥ 0 and hi − lo − low ≥ 0
+// are established (by guards whose failing edge returns an error) under each tag.
+func (x *c03) symbolicSlice(f *ssa.Function, v *ssa.Slice) string {
+	top, data, wire := x.c.avpDecoder()
+	if top == nil {
+		return ""
+	}
+	e := x.c.newAVPSym(top, data, wire)
+	xs := e.slices(v.X, 0)
+	lows := e.ints(v.Low, 0)
+	if xs == nil || lows == nil {
+		return ""
+	}
+	n := 0
+	for _, s := range xs {
+		for _, lo := range lows {
+			t, ok := tagJoin(s.tag, lo.tag)
+			if !ok {
+				continue
+			}
+			tags := []string{t}
+			if t == "" {
+				tags = []string{"V", "noV"}
+			}
+			for _, tg := range tags {
+				n++
+				if lo.v.l == 0 && lo.v.n == 0 {
+					if lo.v.k < 0 {
+						return ""
+					}
+				} else if ok, _ := e.holdsAt(v, lo.v, tg, 0); !ok {
+					return ""
+				}
+				if ok, _ := e.holdsAt(v, s.hi.sub(s.lo).sub(lo.v), tg, 0); !ok {
+					return ""
+				}
+			}
+		}
+	}
+	if n == 0 {
+		return ""
+	}
+	return "Gsym: x[low:] with x a window of the decoder's input; low ≥ 0 and len(x) − low ≥ 0 follow, under the V flag and without it, from guards whose failing edge returns an error (affine arithmetic over the wire Length)"
 }
